@@ -77,13 +77,28 @@ Definition U32MAX_F : float := of_bits 0x41EFFFFFFFE00000.   (* 4294967295.0 = u
 (* NtpDuration::to_seconds *)
 Definition to_seconds_f (d : Z) : float := (of_i64 d / U32MAX_F)%float.
 
-(* NtpDuration::from_seconds, release semantics (the debug_assert on NaN/inf is inactive) *)
-Definition from_seconds_f (x : float) : Z :=
+(* f64::round: nearest integer, ties away from zero *)
+Definition fround (f : float) : float :=
+  match Prim2SF f with
+  | S754_finite s m e =>
+      if 0 <=? e then f
+      else
+        let q := Z.shiftr (Zpos m) (- e) in
+        let r := Zpos m - Z.shiftl q (- e) in
+        let v := if Z.shiftl 1 (- e) <=? 2 * r then q + 1 else q in
+        if v =? 0 then (if s then neg_zero else zero)
+        else if s then (- of_uint63 (Uint63.of_Z v))%float else of_uint63 (Uint63.of_Z v)
+  | _ => f
+  end.
+
+(* NtpDuration::from_seconds, release semantics (the debug_assert on NaN/inf is inactive);
+   [rnd]: the fractional part is rounded (code after the C32 repair) instead of truncated *)
+Definition from_seconds_f (rnd : bool) (x : float) : Z :=
   let i := ffloor x in
   let f := (x - i)%float in
   let iz := f2i64 i in
   if (- 2 ^ 31 <=? iz) && (iz <=? 2 ^ 31 - 1) then
-    Z.lor (iz * 2 ^ 32) (f2i64 (f * U32MAX_F)%float)
+    Z.lor (iz * 2 ^ 32) (f2i64 (if rnd then fround (f * U32MAX_F)%float else (f * U32MAX_F)%float))
   else if iz <? - 2 ^ 31 then - 2 ^ 63 else 2 ^ 63 - 1.
 
 Definition fmax (a b : float) : float :=   (* f64::max: a NaN operand is ignored *)
